@@ -140,8 +140,11 @@ Theorem C06_reachable_inv :
 Proof. exact reach_inv. Qed.
 Print Assumptions C06_reachable_inv.
 
-(* 7. with a failing parity write the invariant is false (finding F-C08): sync_loop' = sync_loop except that the
-      write of level l at stripe pos is dropped when `drop pos l`.  Full-strength statement refuted, partial proved. *)
+(* 7. parity WRITE faults are outside C06's quantifier (they belong to C08).  This witness shows why the hypothesis
+      "every scheduled parity write happens" of the theorems above cannot be dropped: sync_loop' = sync_loop except that
+      the write of level l at stripe pos is dropped when `drop pos l`, and ParOK (which ignores the bad flag) fails.
+      What the tool does about such a stripe since /repo 0ecd44a (it is marked bad, the run fails) is modelled and
+      proved in Fault/FaultModel.v, Props/Properties_C08.v (write_error_safe).  Partial statement proved below. *)
 Theorem C06_inv_write_fault_refuted :
   exists (hashf : bid -> N -> hval) (bs : N) (nlev : nat) (drop : nat -> nat -> bool) (o : sopts) (now : N)
          (fs : list (option fsdisk)) (faults : nat -> list (option rd)) (stripes : list nat) (stop : option nat)
